@@ -418,18 +418,19 @@ class MultipartRelatedConsolidator(ConsolidatorBase):
                 flag_str += "+"  # Show positive sign
             elif " " in flags:
                 flag_str += " "  # Space before positive numbers
-            if "0" in flags:
+            if "0" in flags and "-" not in flags:  # '-' overrides '0'
                 flag_str += "0"  # Zero padding
 
             # Build width and precision if they exist
             width_str = width if width else ""
-            precision_str = f".{precision}" if precision else ""
+            precision_str = ""
 
-            # Handle cases like "%6.6d", which should be converted to "{:06d}"
-            if precision and width:
-                flag_str = "0"
-                precision_str = ""
-                width_str = str(max(precision, width))
+            # A precision is a minimum number of digits. For precision >= width (e.g. "%6.6d" -> "{:06d}",
+            # "%+6.6d" -> "{:+07d}") this is sign-aware zero padding; new-style formatting has no integer precision.
+            if precision and (not width or int(precision) >= int(width)):
+                sign = "+" if "+" in flags else " " if " " in flags else ""
+                flag_str = sign + "0"
+                width_str = str(int(precision) + len(sign))
 
             # Construct the new-style format specifier
             return f"{{:{flag_str}{width_str}{precision_str}{type_char}}}"
